@@ -493,6 +493,18 @@ func (addr *PublicAddress) VerifyAddress() error {
 		return errors.New("invalid ip address")
 	}
 
+	// Check if the hash algorithm and key are usable.
+	// Address data may come from the network.
+	if !addr.Hash.IsValid() {
+		return errors.New("invalid address hash algorithm")
+	}
+	if addr.Type != crop.KeyPairTypeEd25519 {
+		return errors.New("mycoria currently only supports Ed25519 keys")
+	}
+	if len(addr.PublicKey) != ed25519.PublicKeySize {
+		return fmt.Errorf("invalid public key size: %d (should be %d)", len(addr.PublicKey), ed25519.PublicKeySize)
+	}
+
 	return VerifyAddressKey(addr.IP, addr.Hash, addr.Type, addr.PublicKey, addr.Easing)
 }
 
